@@ -1067,4 +1067,72 @@ theorem nocaseLoop_iff (A B : List (Nat × Nat)) (hA : ∀ p ∈ A, okPair p) (h
 
 end nocase
 
+/-! ## `fixW()`: the in-place conversion never faults and equals the out-of-place one -/
+
+/-- what the out-of-place converter says, as a result of the in-place model -/
+def liftOpt (o : Option (List UInt8)) : Except Fault (List UInt8) :=
+  match o with
+  | some out => .ok out
+  | none => .error .oobRead
+
+theorem storeFault_none {off size k w cnt : Nat} (h1 : w + cnt ≤ size) (h2 : w + cnt ≤ off + 4 * k) :
+    storeFault off size k w cnt = none := by
+  unfold storeFault
+  rw [if_neg (by omega), if_neg (by omega)]
+
+theorem contF_eq (off size k w : Nat) (out : List UInt8) (n : Int) (rest : Except Fault (List UInt8))
+    (r : Option (List UInt8)) (hr : rest = liftOpt r)
+    (h1 : w + out.length + 1 ≤ size) (h2 : w + out.length + 1 ≤ off + 4 * k) :
+    contF off size k w out n rest = liftOpt (contB out n r) := by
+  unfold contF contB finish
+  rw [storeFault_none (by omega) (by omega)]
+  by_cases hn : n - 1 = 0
+  · simp only [hn, if_true]
+    rw [storeFault_none (by omega) (by omega)]
+    simp [liftOpt, Except.map]
+  · simp only [hn, if_false, hr]
+    cases r <;> simp [liftOpt, Except.map]
+
+theorem finish_ok (off size k w : Nat) (h1 : w + 1 ≤ size) (h2 : w + 1 ≤ off + 4 * k) :
+    finish off size k w = .ok [] := by
+  unfold finish
+  rw [storeFault_none h1 h2]
+
+theorem fixWLoop_eq (off size : Nat) (units : List Int) (n : Int) :
+    ∀ k w, w ≤ 3 * k → off + 4 * (k + units.length) ≤ size →
+      fixWLoop off size units k w n = liftOpt (utf16toUtf8 units n) := by
+  fun_induction utf16toUtf8 units n <;> intro k w hw hs <;> rw [fixWLoop.eq_def] <;>
+    simp only [List.length_cons, List.length_nil] at hs
+  all_goals simp only [*, if_true, if_false]
+  all_goals first
+    | rfl
+    | (rw [finish_ok _ _ _ _ (by omega) (by omega)]; rfl)
+    | (rename_i ih; refine contF_eq _ _ _ _ _ _ _ _ (ih _ _ (by omega) (by omega)) ?_ ?_ <;>
+        simp only [enc2, enc3, enc4, List.length_cons, List.length_nil] <;> omega)
+
+theorem capOf_resize_ge (size0 n : Nat) : n + 1 ≤ capOf (sizeResize size0 n) := by
+  unfold capOf sizeResize
+  split <;> split <;> (try split) <;> omega
+
+theorem wideOffset_le (len : Nat) : wideOffset len ≤ len + 4 ∧ len + 1 ≤ wideOffset len := by
+  unfold wideOffset
+  rw [and3, and3]
+  omega
+
+/-- the scratch area the harness fills lies inside the buffer, terminator included -/
+theorem scratch_fits (size0 len : Nat) (units : List Int) :
+    wideOffset len + 4 * (scratch (wideOffset len) (capOf (sizeResize size0 (datawNeed len))) units).length
+      ≤ capOf (sizeResize size0 (datawNeed len)) := by
+  have h1 := capOf_resize_ge size0 (datawNeed len)
+  have h2 := wideOffset_le len
+  generalize capOf (sizeResize size0 (datawNeed len)) = cap at *
+  generalize wideOffset len = off at *
+  unfold datawNeed at h1
+  unfold scratch
+  simp only [List.length_append, List.length_take, List.length_cons, List.length_nil]
+  omega
+
+theorem scratch_hasZero (off cap : Nat) (units : List Int) : hasZero (scratch off cap units) = true := by
+  simp [hasZero, scratch]
+
 end AslProofs.Utf
